@@ -170,6 +170,19 @@ def run(p, led, tier):
                      path=["ResourceLock.release: " + s for s in partial[0][1]],
                      witness="execute_operation(resources=['r','r']) commits and leaves ResourceLock('r').owner == operation id")
 
+    # release-all must come back to a resource until the record is gone (one release per hold)
+    key = "CellCycleController.release_all_resources ▸ drains re-entrant holds"
+    if relall is None:
+        raise AnchorError("release_all_resources not found")
+    if not partial or not reentrant:
+        led.ok("C14-R2", key, where(relall, relall.node), "release is total: one call per resource suffices", nontrivial=False)
+    elif _callers_release_fully(p, res, relall, ctrl):
+        led.ok("C14-R2", key, where(relall, relall.node), "per resource, releases are repeated while the record/ownership persists")
+    else:
+        led.fail("C14-R2", key, where(relall, relall.node),
+                 "release() frees one hold per call and a re-entrant acquisition adds a hold, but release-all releases each resource once: the operation ends still owning it",
+                 witness="execute_operation(resources=['r','r']) commits and leaves ResourceLock('r').owner == operation id")
+
     # ---------------- R3: foreign locks untouched
     for fld in ("owner", "hold_count", "owner_priority", "acquired_at"):
         for k, n in attr_writes(release.node, fld, "self"):
@@ -407,7 +420,7 @@ def _callers_release_fully(p, res, m, ctrl):
         return False
     for fn in (relall, m):
         for n in walk_no_nested(fn.node):
-            if isinstance(n, ast.While) and (mentions_attr(n.test, "owner") or mentions_attr(n.test, "hold_count")):
+            if isinstance(n, ast.While) and (mentions_attr(n.test, "owner") or mentions_attr(n.test, "hold_count") or mentions_attr(n.test, RECORD)):
                 if any(isinstance(c, ast.Call) and isinstance(c.func, ast.Attribute) and c.func.attr in ("release", "release_resource") for c in ast.walk(n)):
                     return True
     return False
